@@ -125,7 +125,7 @@ def encRead : Except Exc Val → String
 
 def encOutcome (o : Oracle) (rd : List Str) : Outcome → String
   | .raised c => "raw " ++ toStringLossy c
-  | .group es => "err ExceptionGroup " ++ encAtoms (sortStrs es)
+  | .group es => "err ExceptionGroup " ++ encAtoms es      -- in the order raised
   | .ok st =>
     let (rs, st') := reads o rd st
     "ok " ++ ";".intercalate (rs.map encRead) ++ "|" ++ encAtoms (sortStrs (akeys st'.raw))
@@ -195,7 +195,7 @@ def opEmail : List String → String
     | some t, some ks, some order, some hdrs, some payload, some rd =>
       match parseEmail { hdrs := hdrs, payload := payload } order with
       | .error c => "raw " ++ toStringLossy c
-      | .ok (raw, unp) => encOutcome t.oracle rd (fromEmail t.oracle ks raw (akeys unp) (val == "1"))
+      | .ok (raw, unp) => encOutcome t.oracle rd (fromEmail t.oracle ks raw (sortStrs (akeys unp)) (val == "1"))      -- unparsed keys: as a sorted list
     | _, _, _, _, _, _ => "bad-arg"
   | _ => "bad-op"
 
